@@ -197,6 +197,7 @@ def run_seq(ctx, cases, mode):
         # the fake clock only advances when every thread is idle; a cgo binary keeps an extra thread, so build without cgo.
         # (go test's own -timeout runs on the fake clock; the real-time limit below is what ends a stuck run -> fallback)
         env["CGO_ENABLED"] = "0"
+        env["GOMAXPROCS"] = "1"      # with several Ps the fake clock can stall while GC workers come and go (observed)
     rc, out, res = ctx.go_inpkg(".", "pkg/station/liveness", {"zz_verif_driver_test.go": "c18/liveness_driver_test.go"},
                                 "^TestVerifC18Seq$", js, tags=tags, env=env, timeout=(400 if mode == "fake" else 1200))
     return rc, out, res
@@ -293,6 +294,9 @@ def run(ctx):
                        "capacities 0,1,2,3,-1 x lifetimes incl. 0 and negative); a history is non-trivial if hash-distinct and it "
                        "contains at least one query; every step's verdict, error class, probe calls and both cache sizes are compared")
     ctx.coq_props()
+    rc_ex, out_ex = ctx.coq_make(["C18/Examples.vo"])
+    if rc_ex != 0:
+        ctx.broken("examples", "non-vacuity examples no longer check: " + out_ex[-400:])
     cases = gen_cases(ctx)
     # primary run: exact clock (faketime)
     rc, out, res = run_seq(ctx, cases, "fake")
